@@ -1,9 +1,18 @@
 package main
 
-import "verif/harness/chain"
+import (
+	"verif/harness/chain"
+	"verif/harness/evmledger"
+)
 
 // providersFor selects the dependency-injection providers a recording was made
-// with (the token driver uses its own transactional ERC20 ledger).
+// with.  The token driver replaces the repository's non-transactional mock EVM
+// by the transactional in-memory ERC20 ledger; its recordings must be replayed
+// (and re-imported) with the same provider, a fresh instance per application.
 func providersFor(profile string, o *chain.Options) {
-	_ = profile
+	if profile == "harness-token" {
+		l := evmledger.New()
+		o.EVM = l
+		o.ICS20 = l.ICS20()
+	}
 }
